@@ -66,14 +66,16 @@ def setup_env() -> None:
     th = tree_hash() + "-" + os.environ.get("PANDORA_NUMBA_PARALLEL", "True")
     cdir = os.path.join(cache_root, th)
     os.makedirs(cdir, exist_ok=True)
-    # keep at most 3 caches (mutants create new ones)
+    # bound the disk used by caches of edited trees: drop caches unused for 3 hours beyond the 12 newest
     try:
+        now = time.time()
         olds = sorted(
             (d for d in os.listdir(cache_root) if d != th),
             key=lambda d: os.path.getmtime(os.path.join(cache_root, d)),
         )
-        for d in olds[:-2]:
-            subprocess.run(["rm", "-rf", os.path.join(cache_root, d)], check=False)
+        for d in olds[:-12]:
+            if now - os.path.getmtime(os.path.join(cache_root, d)) > 3 * 3600:
+                subprocess.run(["rm", "-rf", os.path.join(cache_root, d)], check=False)
     except OSError:
         pass
     os.environ["NUMBA_CACHE_DIR"] = cdir
